@@ -15,5 +15,6 @@ PROP = {
     "lanes": [
         native("c16"),
         miri("c16", seeds_q=0, seeds_t=16, scale=100),
-    ],
+            gen("C16"),
+        ],
 }
